@@ -89,6 +89,16 @@ class World:
         content = {"valid": lambda: base64.b64encode(self.key_for(kid)), "validNL": lambda: base64.b64encode(self.key_for(kid)) + b"\n",
                    "empty": lambda: b"", "short": lambda: base64.b64encode(os.urandom(32)), "long": lambda: base64.b64encode(os.urandom(65)),
                    "nonb64": lambda: b"this is *not* base64 at all!!", "unreadable": lambda: base64.b64encode(self.key_for(kid))}[kind]()
+        if self.idx % 2:
+            # other spellings of the same kinds: a key line followed by a comment line (not base64 as a whole), two keys on two lines (128 bytes),
+            # a valid key wrapped over several lines (line breaks are not part of base64 text)
+            k64 = base64.b64encode(self.key_for(kid))
+            if kind == "nonb64":
+                content = k64 + b"\n# anonymongo key - do not delete\n"
+            elif kind == "long":
+                content = k64 + b"\n" + base64.b64encode(os.urandom(64)) + b"\n"
+            elif kind == "validNL":
+                content = b"\n".join(k64[i:i + 32] for i in range(0, len(k64), 32)) + b"\r\n"
         with open(self.kpath, "wb") as f:
             f.write(content)
         if self.unpriv:
@@ -249,6 +259,40 @@ def key_write_faults(b, v, root, pool, unpriv):
     return n
 
 
+def key_stat_faults(b, v, root, pool, unpriv):
+    """A fault at the existence test of a VALID key file (the stat call fails with an I/O error): whatever the run does then, the stored key
+    must not be replaced - every earlier redacted log depends on it."""
+    if not shutil.which("strace"):
+        return 0
+    n = 0
+    for call in ("newfstatat", "statx", "fstat"):
+        for errno_ in ("EIO", "EACCES"):
+            W = World(b, root, 950 + n, pool, unpriv)
+            W.put("valid", 1)
+            before = W.snapshot()
+            inp, outp = os.path.join(W.d, "in.log"), os.path.join(W.d, "out.log")
+            with open(inp, "wb") as f:
+                f.write(W.good)
+            os.chmod(inp, 0o644)
+            st = os.path.join(W.d, "st.log")
+            cmd = ["strace", "-f", "-qq", "-o", st, "-P", W.kpath, "-e", "trace=%s" % call, "-e", "inject=%s:error=%s" % (call, errno_),
+                   b.cli, "redact", inp, "-o", outp, "--encrypt", "-q", W.kpath]
+            p = subprocess.run(cmd, cwd=W.d, stdin=subprocess.DEVNULL, capture_output=True, timeout=120, preexec_fn=demote if unpriv else None)
+            trace = open(st, errors="replace").read() if os.path.exists(st) else ""
+            if errno_ not in trace:
+                shutil.rmtree(W.d, ignore_errors=True)
+                continue            # this build does not make that call on the key path: nothing to judge
+            n += 1
+            v.count()
+            after = W.snapshot()
+            if after[:2] != before[:2]:
+                v.violation("a valid key file is replaced when the existence test on it fails (%s: %s)" % (call, errno_),
+                            {"fault": "%s on the key path fails with %s" % (call, errno_), "exit": p.returncode, "stderr": p.stderr.decode("utf-8", "replace")[:400],
+                             "key_bytes_before": len(before[1] or b""), "key_unchanged": False})
+            shutil.rmtree(W.d, ignore_errors=True)
+    return n
+
+
 def run(tier):
     v = common.Verdict(PID, tier, "model_checking")
     b = common.build()
@@ -389,6 +433,7 @@ def run(tier):
                     if nbad <= 3:
                         v.violation(what, dict(rep, ciphertext=c))
     nkw = key_write_faults(b, v, root, pool, unpriv)
+    nks = key_stat_faults(b, v, root, pool, unpriv)
     if len(set(generated)) != len(generated):
         v.violation("two generated keys are equal", {"generated": len(generated)})
     acc, rej, tstates = sl.validate_traces(traces, module="KeyFileTrace", cfg="KeyFileTrace.cfg", timeout=1500, max_rounds=15)
@@ -399,7 +444,7 @@ def run(tier):
                   "unbounded_proof": {"module": "spec/proofs/KeyFileProofs.tla", "checker": "tlapm", "obligations_proved": obligations,
                                       "theorems": ["InitK", "StepK (KInv is inductive for KeyFileNext, any number of runs)",
                                                    "KInv => KeyBeforeCiphertext /\\ UnusableRefused /\\ SuccessHasKey", "NeverOverwriteStep", "CreateOnceStep"]},
-                  "exhaustive": total_behaviours <= 9000, "behaviours_replayed": len(behaviours), "behaviours_of_model": total_behaviours, "runs_per_behaviour": maxruns, "generated_keys_seen": len(generated),
+                  "key_stat_fault_runs": nks, "exhaustive": total_behaviours <= 9000, "behaviours_replayed": len(behaviours), "behaviours_of_model": total_behaviours, "runs_per_behaviour": maxruns, "generated_keys_seen": len(generated),
                   "ciphertexts_decrypted": len(to_decrypt), "unprivileged_runs": unpriv,
                   "initial_states": ["absent", "valid", "validNL", "validLink", "empty", "short", "long", "nonb64", "dir", "unreadable", "noparent"],
                   "key_write_fault_runs": nkw,
